@@ -383,6 +383,17 @@ func RenderValue(f *ssa.Function, v ssa.Value) string {
 // (conjuncts joined by " && ").
 func RenderCond(f *ssa.Function, cond ssa.Value, truth bool) string {
 	fp := &fingerprinter{short: true, f: f, pred: map[*ssa.BasicBlock]*ssa.BasicBlock{}, spill: map[*ssa.Alloc]ssa.Value{}}
+	for _, b := range f.Blocks {
+		for _, i2 := range b.Instrs {
+			if st, ok := i2.(*ssa.Store); ok {
+				if _, isParam := st.Val.(*ssa.Parameter); isParam {
+					if al, ok := st.Addr.(*ssa.Alloc); ok && al.Comment == st.Val.Name() {
+						fp.spill[al] = st.Val
+					}
+				}
+			}
+		}
+	}
 	return strings.Join(sortedCopy(fp.cond(cond, truth)), " && ")
 }
 
